@@ -642,7 +642,7 @@ def oracle(cases, results, stats=None):
                      % (t_out, want), f)
             if not digits_ok(p, c, frac, t_out % 1000000):
                 viol("wrong number of fractional digits for precision %s/%s" % (p, c), FINDING_COPY if copy_class else None)
-            if not subsec and not (fold_class and t_out != want):
+            if not subsec and not ((fold_class or copy_class) and t_out != want):      # already reported above
                 groups.setdefault((p, c), []).append((t_in, t_out, case, text))
         if again != text:
             viol("write-read-write is not a fixed point (second write gives %s)" % again,
